@@ -38,10 +38,6 @@ func genWX(seed uint64, tier, prop string) *wxScenario {
 
 	nsrv := 1
 	switch prop {
-	case "C42":
-		if r.Chance(1, 5) {
-			nsrv = 2
-		}
 	case "C44":
 		nsrv = r.Range(2, 3)
 	}
